@@ -92,8 +92,14 @@ pub fn judge(out: &mut ChunkOut, scope: &str, text: &str, flags: &str, xsd: bool
     let tk = imp::tokenize(re, inp);
     let r0 = imp::replace_all(re, inp, "$0");
     out.inc("states");
-    if an.is_crash() || tk.is_crash() || r0.is_crash() {
+    if an.is_crash() && tk.is_crash() && r0.is_crash() {
         out.inc("inconclusive_crash");
+        return;
+    }
+    if an.is_crash() || tk.is_crash() || r0.is_crash() {
+        // the three loops are driven by one sequence of spans: one of them failing alone is a disagreement
+        out.inc("validated");
+        out.fail("C04", &base.clone().api("all"), "OneApiCrashes", "the three APIs accept or reject together", &format!("analyze={} tokenize={} replace_all={}", an.show(), tk.show(), r0.show()), "a panic or an exhausted step budget in some of the three only");
         return;
     }
     let (an, tk, r0) = match (an, tk, r0) {
